@@ -33,13 +33,18 @@ inductive BlockStatus where
 def needsRepair (O : Ops) (fast : Bool) (b : AsmBlock) : Bool :=
   decide (O.H b.msg ≠ b.hash) || (!fast && !O.chk b.k b.msg b.ecc)
 
+/-- the stored ecc of the block is complete (`len(e["ecc"]) >= ecc_size`); with a truncated ecc
+file the missing symbols were null-padded for the decoding and the ecc check of the repaired
+block proves nothing -/
+def eccComplete (mbs : Nat) (b : AsmBlock) : Bool := decide (mbs - b.k ≤ b.ecc.length)
+
 /-- the decision for one block: what is written and how it is reported -/
-def processBlock (O : Ops) (fast : Bool) (b : AsmBlock) : Bytes × BlockStatus :=
+def processBlock (O : Ops) (fast : Bool) (mbs : Nat) (b : AsmBlock) : Bytes × BlockStatus :=
   if needsRepair O fast b then
     match O.dec b.k b.msg b.ecc with
     | none => (b.msg, .failed)
     | some (m', e') =>
-      if decide (O.H m' = b.hash) || O.chk b.k m' e' then (m', .repaired) else (b.msg, .failed)
+      if decide (O.H m' = b.hash) || (O.chk b.k m' e' && eccComplete mbs b) then (m', .repaired) else (b.msg, .failed)
   else (b.msg, .intact)
 
 structure FileResult where
@@ -60,9 +65,9 @@ structure LoopSt where
   stopped      : Bool := false      -- the ten-consecutive-failures `break` was taken
 
 /-- one iteration of the repair loop on block number `i` -/
-def loopStep (O : Ops) (fast : Bool) (thr : Nat) (s : LoopSt) (i : Nat) (b : AsmBlock) : LoopSt :=
+def loopStep (O : Ops) (fast : Bool) (mbs thr : Nat) (s : LoopSt) (i : Nat) (b : AsmBlock) : LoopSt :=
   if s.stopped then s else
-  match processBlock O fast b with
+  match processBlock O fast mbs b with
   | (w, .intact) => { s with written := s.written ++ [w], errConsec := false }
   | (w, .repaired) =>
     { s with written := s.written ++ [w], anyRepair := true, repairedOne := true, errConsec := false }
@@ -70,14 +75,14 @@ def loopStep (O : Ops) (fast : Bool) (thr : Nat) (s : LoopSt) (i : Nat) (b : Asm
     { s with written := s.written ++ [w], anyRepair := true, partialFail := true,
              stopped := s.errConsec && decide (thr ≤ i) }
 
-def runLoop (O : Ops) (fast : Bool) (thr : Nat) (blocks : List AsmBlock) : LoopSt :=
-  (blocks.zipIdx).foldl (fun s bi => loopStep O fast thr s bi.2 bi.1) { written := [] }
+def runLoop (O : Ops) (fast : Bool) (mbs thr : Nat) (blocks : List AsmBlock) : LoopSt :=
+  (blocks.zipIdx).foldl (fun s bi => loopStep O fast mbs thr s bi.2 bi.1) { written := [] }
 
 /-- `pff header -c` on one file whose entry was located: `k` message size, `readLen` bytes read as
 header (`file.read(filesize)` when `0 < filesize < header_size`, else `file.read(header_size)`) -/
 def correctHeaderFile (O : Ops) (fast : Bool) (thr k hashLen mbs readLen : Nat) (content track : Bytes) : FileResult :=
   let blocks := assembleHeader k hashLen mbs readLen content track (content.length + 1) 0 0
-  let s := runLoop O fast thr blocks
+  let s := runLoop O fast mbs thr blocks
   if s.anyRepair then
     -- header tool: blocks after the bail-out are written unchanged, then the rest of the file
     let done := s.written
@@ -94,7 +99,7 @@ could be repaired -/
 def correctWholeFile (O : Ops) (fast : Bool) (thr : Nat) (kOf : Nat → Nat) (hashLen mbs : Nat) (content track : Bytes) : FileResult :=
   let blocks := assemble kOf hashLen mbs content track (content.length + 1) 0 0
   if blocks.any (needsRepair O fast) then
-    let s := runLoop O fast thr blocks
+    let s := runLoop O fast mbs thr blocks
     let body := s.written.flatten
     let out := body ++ content.drop body.length
     if s.repairedOne then
